@@ -104,13 +104,14 @@ func (w *World) Step() {
 			if w.Opts.MaxTerminateCycles > 0 {
 				w.termMax[p.UID] = w.Rng.IntN(w.Opts.MaxTerminateCycles + 1)
 			}
-			if w.Opts.Closed && w.Opts.EarlyRecreate && p.Namespace != spec.ReservationNS && p.Annotations["pod-group-name"] != "" {
-				w.recreate(p)
-				if w.recreated == nil {
-					w.recreated = map[types.UID]bool{}
-				}
-				w.recreated[p.UID] = true
+		}
+		if w.Opts.Closed && w.Opts.EarlyRecreate && !w.recreated[p.UID] && p.Namespace != spec.ReservationNS && p.Annotations["pod-group-name"] != "" &&
+			(w.Opts.PRecreateNow <= 0 || w.Rng.Float64() < w.Opts.PRecreateNow) {
+			w.recreate(p)
+			if w.recreated == nil {
+				w.recreated = map[types.UID]bool{}
 			}
+			w.recreated[p.UID] = true
 		}
 		if w.termAge[p.UID] >= w.termMax[p.UID] {
 			w.deletePod(p)
